@@ -255,6 +255,12 @@ def enum_values(name, relpath="kernel/lafem/base.hpp"):
 
 def is_inlined_helper(fam, fn):
     """context helpers (see Interp.is_context_helper) that have callers are interpreted inside their callers only"""
+    if any(re.search(r"std::vector<[^<>]*\*[^<>]*>\s*&$", (fn.type(p_["t"]) or "").strip()) for p_ in fn.params):
+        # a helper that works on pointer vectors handed in by reference (`_clone_alloc_arrays(dst, src, sizes, copy)`): it has no
+        # container state of its own; its body is interpreted on the caller's vectors at every call site (Interp.vector_helper)
+        callers = any(x.get("k") in ("Call", "MCall") and x.get("cdecl") == fn.d.get("decl") for g in fam.functions() if g is not fn and g.facts is fn.facts for x in g.nodes())
+        if callers:
+            return True
     if not (fn.name or "").startswith("_") or not fam.called_on_this(fn):
         return False
     return Interp(fam, fn).is_context_helper(fn)
@@ -2145,10 +2151,31 @@ class Interp:
             return None
         ds, ss = slot_of(d), slot_of(s)
         if ds and ss:
-            self.copy_events.append((ds, ss, n.get("callee"), n.get("l")))
+            self.copy_events.append((ds, ss, n.get("callee"), n.get("l"), self.extent_slot(n["a"][2]) if len(n.get("a") or []) >= 3 else None))
             o, kind, _ = ds
             if (o, kind) in st and ss[1] == kind and ss[2] == ds[2]:
                 st[(o, kind)] = st[(o, kind)].with_(filled={"copy:" + ss[0].split("#")[0]})
+
+    def extent_slot(self, e, depth=0):
+        """(object, kind, index text) if the extent expression is slot `idx` of a recorded size vector O._<kind>_size (directly,
+        through a getter, a reference parameter bound to it, or a single-assignment local)"""
+        e = unwrap(e)
+        while e is not None and e.get("k") in ("Construct", "TempObj") and len(e.get("a", [])) == 1:
+            e = unwrap(e["a"][0])
+        if e is None or depth > 3:
+            return None
+        if e.get("k") == "Ref" and e.get("dk") == "local":
+            init = self.stable_init(e)
+            return self.extent_slot(init, depth + 1) if init is not None else None
+        if e.get("k") == "MCall" and e.get("n") in VEC_SLOT and e.get("obj") is not None:
+            sm = size_member(unwrap(e["obj"]))
+            idx = render(e["a"][0]) if e.get("a") else ""
+            if sm:
+                return (obj_id(sm[1]) or "?").split("#")[0], sm[0], idx
+            oo = unwrap(e["obj"])
+            if oo.get("k") == "MCall" and oo.get("n") in ("get_elements_size", "get_indices_size") and obj_id(oo.get("obj")):
+                return obj_id(oo["obj"]).split("#")[0], oo["n"][4:-5], idx
+        return None
 
     def whole_call(self, n, st, base_init, decl_obj):
         k = n.get("k")
@@ -2343,6 +2370,11 @@ class Interp:
             if mode is not None and base is not None:
                 with _alias_scope():
                     it = Interp(self.fam, base, env={base.params[1]["n"]: mode}, summaries=self.summaries, depth=self.depth + 1).run()
+                if it.unknown or it.mode_undecided or it.taints or it.taint_all:
+                    # the clone could not be interpreted completely: what the receiver holds afterwards is not known - nothing about
+                    # its arrays may be concluded from the absence of an effect
+                    self.taint(o, "the arrays come from %s (line %s), whose body uses a construct the check does not model (%s)" % (
+                        render(a)[:40], n.get("l"), (it.unknown or it.mode_undecided or list(it.taints.values()) or [it.taint_all])[0][:80]))
                 if not it.unknown and it.exits and not it.mode_undecided and not it.taints and not it.taint_all:
                     stx = None
                     for s_, _ in it.exits:
